@@ -18,12 +18,12 @@ Reset ==
   /\ NAnswer("init", [x |-> 0], "ok", {}, {}, <<>>)
 
 HR(arg) == <<arg.r, arg.clear>>
-\* bytes the input left unread on its descriptor (recorded): none => it has got hold of every message
-Unread(ev, i) == IF "unread" \in DOMAIN ev.obs /\ i \in DOMAIN ev.obs.unread THEN ev.obs.unread[i] ELSE 0
+\* how many messages a library input has read completely so far is recorded (the driver measures the bytes each
+\* message took on the wire and the bytes the input left unread): this selects take
+Got(ev, i) == IF "got" \in DOMAIN ev.obs /\ i \in DOMAIN ev.obs.got THEN ev.obs.got[i] ELSE sent[i]
 TakeChoices(ev) ==
-  LET S == {i \in Served(ev.arg.what) : ik[i] \in {"s", "c", "f"} /\ Unread(ev, i) > 0}
-      m == IF S = {} THEN 0 ELSE CHOOSE x \in {Len(wire[i]) : i \in S} : \A y \in {Len(wire[i]) : i \in S} : y <= x
-  IN {f \in [S -> 0..m] : \A i \in S : f[i] <= Len(wire[i])}
+  LET S == {i \in Served(ev.arg.what) : ik[i] \in {"s", "c", "f"} /\ wire[i] # <<>>}
+  IN {[i \in S |-> Got(ev, i) - (sent[i] - Len(wire[i]))]}
 Known(i) == i \in reg
 \* whom mpt_notify_next returns is the implementation's choice: the recorded one must be listed
 Step(ev) ==
